@@ -47,6 +47,7 @@ type FuncContract struct {
 	Decreases []*Clause   // for recursion
 	Ghostdef  []*Clause   // ensures clauses that are definitions of ghost state
 	Ghostset  []*GhostSet // ghost assignments performed when the function returns
+	NoWrite   []*Clause   // nowrite[C07] loc: the location is never written, not even temporarily
 	Opts      map[string]string
 }
 
@@ -58,6 +59,7 @@ type GhostSet struct {
 }
 
 type SpecFunc struct {
+	Pkg    string
 	Name   string
 	Params []QVar
 	Result string
@@ -68,6 +70,7 @@ type SpecFunc struct {
 }
 
 type Lemma struct {
+	Pkg    string
 	Name   string
 	Expr   Expr
 	Src    string
@@ -160,11 +163,9 @@ func (sp *Specs) LoadSpecFile(path, pkgPath string) error {
 			pkgPath = rest
 			cur = nil
 		case "props":
-			if cur != nil {
-				cur.Props = strings.Fields(rest)
-			} else {
-				curProps = strings.Fields(rest)
-			}
+			// default property set of the functions, lemmas and axioms that follow in this file
+			curProps = strings.Fields(rest)
+			cur = nil
 		case "func":
 			m := reFuncHdr.FindStringSubmatch(line)
 			if m == nil {
@@ -200,6 +201,15 @@ func (sp *Specs) LoadSpecFile(path, pkgPath string) error {
 			case "ghostdef":
 				cur.Ghostdef = append(cur.Ghostdef, c)
 			}
+		case "nowrite":
+			if cur == nil {
+				return fail("nowrite outside func")
+			}
+			e, err := ParseExpr(rest)
+			if err != nil {
+				return fail("%v", err)
+			}
+			cur.NoWrite = append(cur.NoWrite, &Clause{Kind: "nowrite", Name: label, Expr: e, Src: rest, Props: strings.Split(label, ","), File: path, Line: ln})
 		case "ghostset":
 			// ghostset x.#g = expr
 			if cur == nil {
@@ -312,6 +322,7 @@ func (sp *Specs) LoadSpecFile(path, pkgPath string) error {
 				return fail("%v", err)
 			}
 			sf.File, sf.Line = path, ln
+			sf.Pkg = pkgPath
 			if _, dup := sp.Spec[sf.Name]; dup {
 				return fail("duplicate spec function %s", sf.Name)
 			}
@@ -329,7 +340,7 @@ func (sp *Specs) LoadSpecFile(path, pkgPath string) error {
 			if err != nil {
 				return fail("%v", err)
 			}
-			sp.Lemmas = append(sp.Lemmas, &Lemma{Name: name, Expr: e, Src: rest, Axiom: word == "axiom", File: path, Line: ln, Props: curProps})
+			sp.Lemmas = append(sp.Lemmas, &Lemma{Pkg: pkgPath, Name: name, Expr: e, Src: rest, Axiom: word == "axiom", File: path, Line: ln, Props: curProps})
 		case "globalinv":
 			// globalinv[name] by init#1: expr
 			if !strings.HasPrefix(rest, "by ") {
